@@ -72,16 +72,33 @@ func (c *DSLContext) Error() string {
 // Roots orders the DSL roots making sure dependencies are last. It returns an
 // error if there is a dependency cycle.
 func (c *DSLContext) Roots() ([]Root, error) {
+	// Roots that are only reachable through DependsOn are sorted like the
+	// registered ones.
+	roots := append([]Root{}, c.roots...)
+	for i := 0; i < len(roots); i++ {
+		for _, dep := range roots[i].DependsOn() {
+			known := false
+			for _, r := range roots {
+				if r.EvalName() == dep.EvalName() {
+					known = true
+					break
+				}
+			}
+			if !known {
+				roots = append(roots, dep)
+			}
+		}
+	}
 	// Flatten dependencies for each root
-	rootDeps := make(map[string][]Root, len(c.roots))
-	rootByName := make(map[string]Root, len(c.roots))
-	for _, r := range c.roots {
+	rootDeps := make(map[string][]Root, len(roots))
+	rootByName := make(map[string]Root, len(roots))
+	for _, r := range roots {
 		for _, dep := range r.DependsOn() {
 			if dep.EvalName() == r.EvalName() {
 				return nil, fmt.Errorf("dependency cycle: %s depends on itself", r.EvalName())
 			}
 		}
-		sorted := sortDependencies(c.roots, r, func(r Root) []Root { return r.DependsOn() })
+		sorted := sortDependencies(roots, r, func(r Root) []Root { return r.DependsOn() })
 		length := len(sorted)
 		for i := 0; i < length/2; i++ {
 			sorted[i], sorted[length-i-1] = sorted[length-i-1], sorted[i]
@@ -116,8 +133,8 @@ func (c *DSLContext) Roots() ([]Root, error) {
 	}
 	// Now sort top level DSLs
 	var sorted []Root
-	for _, r := range c.roots {
-		s := sortDependencies(c.roots, r, func(r Root) []Root { return rootDeps[r.EvalName()] })
+	for _, r := range roots {
+		s := sortDependencies(roots, r, func(r Root) []Root { return rootDeps[r.EvalName()] })
 		for _, s := range s {
 			found := false
 			for _, r := range sorted {
